@@ -2,6 +2,9 @@ import ZkElGamal.Proofs.RangeLemmas
 import ZkElGamal.Proofs.Batch
 import ZkElGamal.Proofs.IppExtract
 import ZkElGamal.Proofs.RangeExtract
+import Mathlib.Algebra.Field.ZMod
+import Mathlib.Algebra.Module.Prod
+import Mathlib.Tactic.NormNum.Prime
 /-!
 # C04 — batched range proofs accept only in-range commitments in well-formed contexts
 
@@ -570,3 +573,60 @@ theorem challengeTrace_spec (t : T) (nm : ℕ) (pf : Proof F G) :
     exact ⟨_, _, rfl, e1, e2⟩
 
 end Zk.Props.C04
+
+namespace Zk.Props.C04.Example
+open Zk.RangeExtract
+
+/-! Non-vacuity of `range_special_sound`: over `F = ZMod 13`, `G = F⁴` with the standard basis as generators
+    (independent), the transcripts of the honest prover for one 1-bit commitment to the value 1, on the grid
+    `y ∈ {1}`, `z, x ∈ {1,2,3}`, `w ∈ {1,2}`, satisfy every hypothesis of the theorem. -/
+
+abbrev TF := ZMod 13
+instance : Fact (Nat.Prime 13) := ⟨by norm_num⟩
+abbrev TG := TF × TF × TF × TF
+
+def g : Fin 1 → TG := fun _ => (1, 0, 0, 0)
+def h : Fin 1 → TG := fun _ => (0, 1, 0, 0)
+def B : TG := (0, 0, 1, 0)
+def Ht : TG := (0, 0, 0, 1)
+
+theorem hind : GIndep TF g h B Ht := by
+  intro a b β η e
+  have e' : (a 0, b 0, β, η) = ((0, 0, 0, 0) : TG) := by
+    have : glin g h B Ht a b β η = (a 0, b 0, β, η) := by simp [glin, g, h, B, Ht]
+    rw [← this, e]; rfl
+  simp only [Prod.mk.injEq] at e'
+  refine ⟨funext fun i => ?_, funext fun i => ?_, e'.2.2.1, e'.2.2.2⟩
+  · rw [Subsingleton.elim i 0]; exact e'.1
+  · rw [Subsingleton.elim i 0]; exact e'.2.1
+
+-- honest prover for one 1-bit commitment to the value 1
+def α : TF := 2
+def ρ : TF := 3
+def sL : TF := 4
+def sR : TF := 5
+def γ : TF := 6
+def τ1 : TF := 7
+def τ2 : TF := 8
+def A : TG := (1, 0, 0, α)
+def S : TG := (sL, sR, 0, ρ)
+def V : Fin 1 → TG := fun _ => (0, 0, 1, γ)
+def Y : Fin 1 → TF := ![1]
+def Z : Fin 3 → TF := ![1, 2, 3]
+def X : Fin 3 → TF := ![1, 2, 3]
+def W : Fin 2 → TF := ![1, 2]
+def lv (q : Fin 3) (k : Fin 3) : TF := 1 - Z q + sL * X k
+def rv (q : Fin 3) (k : Fin 3) : TF := Z q + sR * X k + Z q ^ 2
+def t1 (q : Fin 3) : TF := (1 - Z q) * sR + sL * (Z q + Z q ^ 2)
+def t2 : TF := sL * sR
+
+example : ∃ (v γ' : Fin 1 → TF) (bit : Fin 1 → TF), (∀ j, V j = v j • B + γ' j • Ht) ∧ (∀ i, bit i = 0 ∨ bit i = 1)
+      ∧ ∀ j, v j = ∑ i with (fun _ : Fin 1 => (0 : Fin 1)) i = j, bit i * (fun _ => (1 : TF)) i :=
+  RangeExtract.range_special_sound (N := 1) (m := 1) (by norm_num) g h B Ht hind (fun _ => 0) (fun _ => 1) A S V
+    Y (by decide) (by decide) Z (by decide) (by decide) X (by decide) W (by decide)
+    (fun _ q => (0, 0, t1 q, τ1)) (fun _ _ => (0, 0, t2, τ2))
+    (fun _ q k => lv q k * rv q k) (fun _ q k => Z q ^ 2 * γ + τ1 * X k + τ2 * (X k * X k)) (fun _ _ k => α + ρ * X k)
+    (fun _ q k _ _ => lv q k) (fun _ q k _ _ => rv q k)
+    (by decide +kernel) (by decide +kernel)
+
+end Zk.Props.C04.Example
